@@ -2527,6 +2527,9 @@ impl CommonElementAttributes {
         if self.marks.len() > 0 {
             return false;
         }
+        if self.data.len() > 0 {
+            return false;
+        }
         true
     }
 
